@@ -92,14 +92,19 @@ def report(prop, mod, outcomes, a, seed, t_start, partial=False):
             os.unlink(os.path.join(replay_dir, f))
     violations = []; known = []; undecided = []; errors = []
     n_ded = n_dis = 0; by_backend = {}; solver_s = 0.0; bounded = []; functions = []; assumptions = []; samples = []; undischarged = []
-    n_bounded_cases = 0
+    n_bounded_cases = 0; n_foreign = 0; foreign_failures = []; counted_units = set()
     for o in outcomes:
         functions += o.get("functions", []); samples += o.get("samples", [])[:2]
         for s in o.get("assumptions", []):
             if s not in assumptions: assumptions.append(s)
         for r in o["results"]:
             if r.get("props") and prop not in r["props"]:
+                n_foreign += 1
+                if os.environ.get("VF_DUMP_FOREIGN"): print("FOREIGN %s | %s | %s | %s" % (prop, o["unit"], r["name"], "/".join(r["props"])))
+                if r["status"] in ("refuted", "failed") and not (r.get("finding") and any(findings.is_known(r["finding"], q) for q in r["props"])):
+                    foreign_failures.append((o["unit"], r))
                 continue
+            counted_units.add(o["unit"])
             st = r["status"]; ded = r["kind"] not in ("bounded", "audit", "xcheck", "sensitivity")
             if ded and st in ("proved", "refuted", "unknown"):
                 n_ded += 1; solver_s += r.get("time") or 0
@@ -154,6 +159,14 @@ def report(prop, mod, outcomes, a, seed, t_start, partial=False):
         lines.append("UNDECIDED %s: %s (%s)" % (unit, r["name"], (r.get("detail") or "").strip().splitlines()[-1][:200] if r.get("detail") else r["status"]))
     for unit, r in errors:
         lines.append("CHECKER-ERROR %s: %s\n%s" % (unit, r["name"], (r.get("detail") or "")[-1500:]))
+    seen_f = set()
+    for unit, r in foreign_failures:
+        if r["name"] in seen_f: continue
+        seen_f.add(r["name"])
+        lines.append("NOTE %s: obligation %s fails; it is attributed to %s, not to %s, and does not count here" % (unit, r["name"], "/".join(r["props"]), prop))
+    idle = [o["unit"] for o in outcomes if o["unit"] not in counted_units and o["results"]]
+    for u in idle:
+        lines.append("NOTE %s: none of this unit's obligations is attributed to %s (it contributes nothing to this check)" % (u, prop))
     wall = time.time() - t_start
     level = getattr(mod, "LEVEL", "other")
     rc = 1 if violations else (3 if errors else (2 if undecided else 0))
@@ -167,6 +180,7 @@ def report(prop, mod, outcomes, a, seed, t_start, partial=False):
         "bounded_stand_ins": bounded, "bounded_cases_total": n_bounded_cases,
         "undischarged": undischarged,
         "known_findings_reproduced": sorted(seen_k),
+        "obligations_attributed_to_other_properties_only": n_foreign, "units_contributing_nothing": idle,
         "units": [{"unit": o["unit"], "kind": o["kind"], "title": o["title"], "wall_s": o["wall_s"], "stats": o.get("stats", {}),
                    "results": _count(o["results"], prop)} for o in outcomes],
         "samples": samples[:12] or [{"note": "no obligation sample recorded"}],
